@@ -2,6 +2,7 @@ package headers
 
 import (
 	"fmt"
+	"math"
 	"strconv"
 	"strings"
 	"time"
@@ -161,7 +162,9 @@ func unmarshalRangeNPTTime(d *time.Duration, s string) error {
 	}
 	seconds := tmp
 
-	*d = time.Duration(seconds*float64(time.Second)) +
+	// round instead of truncating: seconds*1e9 is often slightly below the
+	// exact value (e.g. 1.001 -> 1000999999.9999999), and truncation would lose a nanosecond.
+	*d = time.Duration(math.Round(seconds*float64(time.Second))) +
 		time.Duration(mins*60+hours*3600)*time.Second
 
 	return nil
